@@ -33,7 +33,11 @@ Definition meta_get (l : list kv) (k : bytes) : bytes :=
 Definition harness_handler (s : side) (method body : bytes) (meta : list kv) : bytes * list kv * status :=
   (harness_body body,
    [(str "rtag", meta_get meta (str "tag")); (str "r0", re_of (meta_get meta (str "t0")))],
-   status_zero).
+   (* a request carrying refuse=1 is refused: status 403 "refused:<tag>", no result *)
+   match args_peek meta (str "refuse") with
+   | Some (_ :: _) => mkStatus 403 (str "refused:" ++ meta_get meta (str "tag")) None
+   | _ => status_zero
+   end).
 
 Fixpoint calls_of (l : list val) : option (list (Z * N)) :=
   match l with
